@@ -572,6 +572,17 @@ def coins_on_every_message(s):
     s.do(E("usr3", {"k": "fee_cycle"}), "valid")
     s.do(E("usr3", {"k": "receive", "sender": "usr3", "amount": 5, "inner": {"k": "create_bucket_cw20", "id": 9}}, coins), "funds_on_nondeposit")
     s.do(E("usr3", {"k": "receive_nft", "sender": "usr3", "token_id": "1", "inner": {"k": "create_bucket_cw721", "id": 9}}, coins), "funds_on_nondeposit")
+    # the hooks called by a *contract* that forwards coins with the callback (a payable token / router): refused,
+    # although the same calls without coins are accepted
+    s.do({"t": "bank_send", "user": "usr3", "to": HOSTILE, "coins": [["uatom", 500], ["ujunox", 500]]}, "valid")
+    s.do(E(HOSTILE, {"k": "receive", "sender": "usr3", "amount": 5, "inner": {"k": "create_bucket_cw20", "id": 9}}, coins), "funds_on_nondeposit")
+    s.do(E(HOSTILE, {"k": "receive_nft", "sender": "usr3", "token_id": "1", "inner": {"k": "create_bucket_cw721", "id": 10}}, coins), "funds_on_nondeposit")
+    s.do(E(HOSTILE, {"k": "receive_nft", "sender": "usr3", "token_id": "1", "inner": {"k": "create_listing_cw721", "id": 11, "ask": ask, "wl": None}},
+           [["ujunox", 7], ["uatom", 1]]), "funds_on_nondeposit")
+    s.do(E(HOSTILE, {"k": "receive", "sender": "usr3", "amount": 5, "inner": {"k": "create_bucket_cw20", "id": 9}}), "hostile")
+    s.do(E(HOSTILE, {"k": "receive_nft", "sender": "usr3", "token_id": "1", "inner": {"k": "create_bucket_cw721", "id": 10}}), "hostile")
+    s.do(E(HOSTILE, {"k": "receive_nft", "sender": "usr3", "token_id": "2", "inner": {"k": "add_to_bucket_cw721", "id": 10}}, coins), "funds_on_nondeposit")
+    s.do(E(HOSTILE, {"k": "receive", "sender": "usr3", "amount": 6, "inner": {"k": "add_to_bucket_cw20", "id": 9}}, coins), "funds_on_nondeposit")
     s.do(E("usr1", {"k": "withdraw_purchased", "id": 1}), "valid")
     s.do(E("usr0", {"k": "remove_bucket", "id": 1}), "valid")
     s.do(E("usr2", {"k": "delete_listing", "id": 2}), "valid")
@@ -660,6 +671,18 @@ def queries_pages(s):
     adv(s, 600, 100_000_000)      # listing 1 of usr1 expired 0.1 s ago (600 s + 0.1 s after its finalisation)
 
 
+def queries_many_records_cfg():
+    return world.default_cfg(n_cw20=1, n_cw721=1, hostile=False, traders=2, tokens_per_coll=1)
+
+
+def queries_many_records(s):
+    """C16: an owner with more records than twelve pages hold (262 buckets, 20 per page): pages 13, 14
+    and beyond must continue the enumeration, every record exactly once, empty pages after the data."""
+    for i in range(1, 263):
+        s.do(E("usr0", {"k": "create_bucket", "id": i}, [["uatom", 1]]), "valid")
+    listing(s, "usr1", 1, [["uatom", 1]], G(n=[["uosmo", 7]]), secs=600)
+
+
 SCRIPTS = {
     "traded_bucket_reused": (world.default_cfg, traded_bucket_reused, ()),
     "traded_bucket_topped_up": (world.default_cfg, traded_bucket_topped_up, ()),
@@ -683,4 +706,5 @@ SCRIPTS = {
     "hostile_freeze": (world.default_cfg, hostile_freeze, ("no_drain",)),
     "big_amounts": (big_amounts_cfg, big_amounts, ()),
     "queries_pages": (queries_pages_cfg, queries_pages, ("all_pages",)),
+    "queries_many_records": (queries_many_records_cfg, queries_many_records, ("all_pages", "no_drain")),
 }
